@@ -71,18 +71,24 @@ pub fn mk_eid(n: u64) -> EventId {
 fn eid_num(e: &EventId) -> u64 {
     be32_num(e.as_bytes())
 }
-thread_local! {
-    static PK_POOL: Vec<PublicKey> = (0..130u32).map(|i| {
-        let mut sk = [0x11u8; 32];
-        sk[28..].copy_from_slice(&(i + 1).to_be_bytes());
-        Keys::new(SecretKey::from_slice(&sk).unwrap()).public_key()
-    }).collect();
+static PK_POOL: std::sync::OnceLock<Vec<PublicKey>> = std::sync::OnceLock::new();
+fn pk_pool() -> &'static Vec<PublicKey> {
+    PK_POOL.get_or_init(|| {
+        (0..130u32)
+            .map(|i| {
+                let mut sk = [0x11u8; 32];
+                sk[28..].copy_from_slice(&(i + 1).to_be_bytes());
+                Keys::new(SecretKey::from_slice(&sk).unwrap()).public_key()
+            })
+            .collect()
+    })
 }
 pub fn mk_pk(i: u64) -> PublicKey {
-    PK_POOL.with(|p| p[(i as usize) % p.len()])
+    let p = pk_pool();
+    p[(i as usize) % p.len()]
 }
 fn pk_num(pk: &PublicKey) -> u64 {
-    PK_POOL.with(|p| p.iter().position(|x| x == pk).map(|i| i as u64).unwrap_or(999_999))
+    pk_pool().iter().position(|x| x == pk).map(|i| i as u64).unwrap_or(999_999)
 }
 fn admin_set(n: u64) -> BTreeSet<PublicKey> {
     (0..n).map(mk_pk).collect()
